@@ -35,7 +35,11 @@ func (a authority) render() string {
 	return h
 }
 
-var c11Labels = []string{"example", "Example", "EXAMPLE", "com", "COM", "org", "www", "api", "a", "b", "x-1", "co", "uk", "internal", "evil"}
+var c11Labels = []string{"example", "Example", "EXAMPLE", "com", "COM", "org", "www", "api", "a", "b", "x-1", "co", "uk", "internal", "evil", "xn--bcher-kva", "XN--BCHER-KVA"}
+
+// caseless non-ASCII labels (UTF-8 in URL.Host as url.Parse leaves it): only in the direct cases -
+// end-to-end net/http converts such hosts to punycode (idnaASCII), which the chain model does not follow
+var c11LabelsU = []string{"\u4f8b\u3048", "\u0645\u062b\u0627\u0644"}
 var c11V6 = []string{"::1", "2001:db8::1", "2001:DB8::1", "fe80::1%eth0", "fe80::1%ETH0", "::ffff:1.2.3.4", "2001:db8:0:0:0:0:0:1", "::"}
 
 func genAuthority(r *hk.Rand) authority {
@@ -143,6 +147,10 @@ func runC11(r *hk.Run) {
 		a := genAuthority(rng)
 		if rng.Chance(40) {
 			a = mutateAuthority(rng, a)
+		}
+		if a.Kind == "name" && rng.Chance(4) {
+			a.Host = hk.Pick(rng, c11LabelsU) + "." + a.Host
+			r.Count("host.non-ascii-label")
 		}
 		in := a.render()
 		gotH, gotD := req.VerifGetHostname(in), req.VerifGetDomain(in)
